@@ -932,9 +932,54 @@ func mkEqRaw(a, b *Term) *Term {
 
 // ---------- arrays ----------
 
+// arrayFrames: array variables introduced by a bulk update (copy / havoc) of one region:
+// outside that region they agree with the previous array (the defining axiom is in the
+// path assumptions; this table lets the simplifier use it syntactically).
+type arrayFrame struct {
+	old *Term
+	rg  *Term
+}
+
+var arrayFrames = map[int]arrayFrame{}
+var arrayFramesMu sync.Mutex
+
+func RegisterArrayFrame(newArr, oldArr, rg *Term) {
+	arrayFramesMu.Lock()
+	arrayFrames[newArr.id] = arrayFrame{oldArr, rg}
+	arrayFramesMu.Unlock()
+}
+
 func Select(arr, idx *Term) *Term {
 	_, el := arr.Sort.ArrayParts()
-	for arr.Op == "store" {
+	for {
+		if arr.Op == "var" && idx.Op == "mkaddr" {
+			arrayFramesMu.Lock()
+			fi, ok := arrayFrames[arr.id]
+			arrayFramesMu.Unlock()
+			if ok && rgCompare(idx.Args[0], fi.rg) == 1 {
+				arr = fi.old
+				continue
+			}
+		}
+		if arr.Op != "store" {
+			break
+		}
+		var c int
+		if idx.Sort == SAddr {
+			c = addrCompare(arr.Args[1], idx)
+		} else {
+			c = idxCompare(arr.Args[1], idx)
+		}
+		if c == 0 {
+			return arr.Args[2]
+		}
+		if c == 1 {
+			arr = arr.Args[0]
+			continue
+		}
+		break
+	}
+	for false && arr.Op == "store" {
 		var c int
 		if idx.Sort == SAddr {
 			c = addrCompare(arr.Args[1], idx)
@@ -1373,7 +1418,9 @@ func (s *Script) Ref(t *Term) string {
 	return n
 }
 
-const smtPrelude = `(declare-datatypes ((Path 0)) (((pnil) (fld (fbase Path) (fidx Int)) (elem (ebase Path) (eidx (_ BitVec 64))))))
+const smtPrelude = `(declare-sort ByteSeq 0)
+(declare-fun seq_empty () ByteSeq)
+(declare-datatypes ((Path 0)) (((pnil) (fld (fbase Path) (fidx Int)) (elem (ebase Path) (eidx (_ BitVec 64))))))
 (declare-datatypes ((Addr 0)) (((mkaddr (rg Int) (pa Path)))))
 `
 
